@@ -67,6 +67,9 @@ ALPHABET = [
     # a default that is not a number is inside no limit: legal only while the category has none
     ("AddCategory", ("lim2", "length"), {"default_value": NAN, "override": True}),
     ("AddCategory", ("lim3",), {"from_category": "lim2", "min_value": 0.0}),
+    # a default a rounding error beyond an inclusive limit is beyond the limit
+    ("AddCategory", ("lim4", "length"), {"max_value": 0.3, "default_value": 0.1 + 0.2}),
+    ("AddCategory", ("lim4", "length"), {"min_value": 1.0, "default_value": 0.9999999999999999, "override": True}),
     # a quantity type whose name is the empty string is a quantity type (nothing forbids the name): its units are taken
     ("AddUnitBase", ("", "nameless base", "q0"), {}),
     ("AddUnit", ("length", "the nameless type's symbol again", "q0") + F100, {}),
